@@ -28,4 +28,10 @@ def bindArgs {α : Type} (names : List Name) (args : List (Option α)) (kwargs :
     match (args.getD k none) with
     | some a => some a
     | none => (kwargs.find? (fun kv => kv.1 == name)).map (·.2)
+
+/-- the same with `None` allowed as a keyword value ("kwargs: same as args, but positioned by name"): a `None` keyword
+takes part in both `TypeError` checks like any other keyword and then leaves its indeterminate free -/
+def bindArgsN {β : Type} (names : List Name) (args : List (Option β)) (kwargs : List (Name × Option β)) :
+    Option (List (Option β)) :=
+  (bindArgs names (args.map (Option.map some)) kwargs).map (List.map Option.join)
 end Np
